@@ -21,3 +21,24 @@ PROPS = {
         "assumptions": ["frames are produced only by ui.State.view (generated fact)", "terminal height >= 2 for the status line clause"],
     },
 }
+
+# --------------------------------------------------------------------------------------------
+# Texts for MANIFEST.json (checks/gen_manifest.py)
+
+MANIFEST_TEXT = {
+    "C13": {
+        "text": "Lean theorems over all lists of regex matches (hence all strings) and all widths >= 1 for Wrap (width, content, breaks, word integrity), DumbWrap, Pad, Indent and Snip; the model is tied to ansi.go by a differential correspondence check on generated styled and hostile text, with the same predicates evaluated on the implementation's output.",
+        "design_ref": "DESIGN.md §5.0, §5 C13",
+        "note": "Trusted: Lean kernel; the correspondence check (testing) between ansi.go and lean/Model/Ansi.lean; Go regexp semantics of the expand pattern (validated differentially); unicode.IsSpace table as transcribed.",
+        "technique": "Lean 4 proof (induction over the wrap state machine) + differential correspondence",
+    },
+    "C16": {
+        "text": "Lean theorems for all prefix/centred/suffix texts and all heights >= 1: CenterVertically returns exactly h lines, centred as specified; ReplaceLastLine keeps the height for texts of >= 2 lines; SetLength is newline-free. Tied to ansi.go by differential correspondence; the height predicate is evaluated on every implementation output.",
+        "design_ref": "DESIGN.md §5 C16",
+        "note": "Trusted: Lean kernel; correspondence check (testing); strings.Split/Join/Count/Repeat/LastIndex as modelled on character lists.",
+        "technique": "Lean 4 proof (list lemmas on split/join) + differential correspondence",
+    },
+}
+
+NOT_APPLICABLE = {p: "check not built yet in this round (planned, see DESIGN.md §7)" for p in
+                  ["C%02d" % i for i in range(1, 21)]}
